@@ -1083,6 +1083,10 @@ EXTRA_CALLS = [
     ("dot", "a [b], [b] c -> a c", [(2, 3), (3, 4)], {}),
     ("id", "a b c", [(2, 3, 4)], {}),
     ("id", "(a + b) c -> a c, b c", [(5, 2)], {"a": 2}),
+    # more variables than there are one-letter names: the 45th generated name would be the keyword `as`, later ones `if`, `in`, `is`, `np`, `op`
+    ("id", ", ".join(["a b"] * 45) + " -> " + ", ".join(["b a"] * 45), [(2, 3)] * 45, {}),
+    ("add", ", ".join(["a b"] * 30) + " -> b a", [(2, 3)] * 30, {}),
+    ("id", ", ".join(["a"] * 420) + " -> " + ", ".join(["a"] * 420), [(2,)] * 420, {}),
 ]
 
 
@@ -1129,6 +1133,11 @@ def check_einx_call(ctx, op, desc, args, kwargs, backend):
                     return "unsupported"
                 except Exception as e:
                     ctx.count("einx-raised:" + type(e).__name__)
+                    if "failed to compile" in str(e):
+                        # the operation was traced and its text emitted, but the text is not a Python program
+                        ctx.violation(sig, {"kind": "the emitted text does not compile", "op": op, "desc": desc[:300], "shapes": [list(s) for s in shapes][:8],
+                                            "kwargs": {k: str(v) for k, v in kwargs.items()}, "backend": backend, "error": str(e)[-600:]})
+                        return "VIOLATION"
                     return "raised"
             text = f(desc, *[np.array(a) for a in args], graph=True, **kw)
     if not cap.records:
